@@ -4,6 +4,7 @@
 package sessgen
 
 import (
+	"time"
 	"fmt"
 	"math/rand/v2"
 	"strings"
@@ -124,7 +125,10 @@ func (c Cfg) Kind() string {
 func Establish(p *speaker.Peer, c Cfg) (*speaker.Session, error) {
 	var s *speaker.Session
 	var err error
-	for attempt := 0; attempt < 4; attempt++ {
+	for attempt := 0; attempt < 5; attempt++ {
+		// a previous FSM of the peer may not have published its new state yet (a legitimate transient
+		// collision answer, RFC 4271 section 6.8), or bio-rd's 1 s OpenSent timer fired on a stalled machine
+		time.Sleep(time.Duration(attempt*attempt) * 25 * time.Millisecond)
 		s, err = p.Connect()
 		if err == nil {
 			err = s.Establish(c.Open())
